@@ -392,7 +392,9 @@ const decGenRule = "(src, len(dst), dict, placement) from: the block grammar (to
 	"offset classes {1..18, start of output, last/first dictionary byte, inside/straddling the dictionary, 0, beyond the dictionary, 65535}), valid and hostile (zero offsets, " +
 	"non-zero end nibble, missing final sequence, truncation); real compressor output mutated (truncation at structural points, flips, substitutions, splices, junk); random " +
 	"bytes; the repository's fuzz/uncompress corpus mutated. len(dst) relative to the decoded size: exact, -1, +1, +0..48, -1..24, 0, arbitrary; spare capacity {0,1,16,64,4096}; " +
-	"dictionary lengths {1,3,4,15..18,64,1000,65535,65536,70000,131072}. src, dst, dict live in mmap arenas ending (or starting) at PROT_NONE pages, canaries around dst. "
+	"dictionary lengths {1,3,4,15..18,64,1000,65535,65536,70000,131072}. src, dst, dict live in mmap arenas ending (or starting) at PROT_NONE pages, canaries around dst. " +
+	"Pinned big cases (heap slices with canaries): literal runs of 2^20-1..3*2^20 followed by a match, match/literal length fields adding up to 2^32+k, overlapping matches of 26 MiB at offsets 3/7/10, " +
+	"zero runs of 4094..70000 at offset 1 followed by matches into the dictionary. "
 
 func TestC03Pinned(t *testing.T) {
 	stat.For("C03").SetRule(decGenRule)
